@@ -199,7 +199,12 @@ class Gen:
                 return str(self.r.randrange(length))
             t, k = self.nonconst(INT, d - 1, ctx)
             # ((t % n) + n) % n  is always in range for wrapping ints
-            return '((%s %% %d) + %d) %% %d' % (self.paren(t), length, length, length)
+            base = '((%s %% %d) + %d) %% %d' % (self.paren(t), length, length, length)
+            if self.chance(0.2):
+                # a byte-typed index: narrowing must bring k + 256*j back to k
+                self.count('index_narrowed')
+                return '(%s + %d) is byte' % (base, 256 * self.r.choice([0, 1, 1, 2, -1]))
+            return base
         if self.chance(0.5): return str(self.r.choice([0, 1, 2, 5, -1, 100]))
         return self.e_int(d - 1, ctx)[0]
 
@@ -479,6 +484,9 @@ class Gen:
         if self.chance(0.5):
             t, _ = self.nonconst(INT, 1, ctx)
             ltxt = '((%s %% %d) + %d) %% %d + 1' % (self.paren(t), n, n, n)
+            if self.chance(0.3):
+                self.count('vla_len_narrowed')
+                ltxt = '(%s + %d) is byte' % (ltxt, 256 * self.r.choice([0, 1, 2, -1]))
             # actual length unknown statically: 1..n ; treat as 1 for indexing purposes
             known = 1
         else:
